@@ -42,9 +42,46 @@ import (
 
 type c10Marker struct {
 	Head, Mid, Tail string
+	// Pre: hostile bytes in FRONT of the marker head — code that looks at the first byte of a request string
+	// (a digit → "array index", a quote, a sign …) takes the same path as for a value consisting of them
+	Pre string
 }
 
-func (m c10Marker) Val() string { return m.Head + m.Mid + m.Tail }
+func (m c10Marker) Val() string { return m.Pre + m.Head + m.Mid + m.Tail }
+
+// leading fragments: what a first-byte test could key on. The first group (digits) is used for the second marker
+// of every position, so that every position sees a value that begins like a number.
+var c10LeadDigits = []string{"0", "9", "1'", "0')", "7\\", "00", "1e9", "0x27", "3--", "2/*", "5 ", "8,", "4]", "6\""}
+var c10Leads = []string{"'", "\\", "-", "--", "-1", "+", " ", "(", ")", "_", ".", "[", "]", "`", "\"", "$", "%", "#", "/*", "*/", "@", ":", ";", ",",
+	"{", "}", "!", "~", "=", "|", "\x00", "\n", "\t", "é", "\xff", "A", "z", "''", "\\'", "NULL", "true", "0", "9'"}
+
+// c10Lead: a leading fragment admissible at the class (empty when the class admits none of the candidates)
+func c10Lead(rng *h.Rng, cl c10Class, digits bool) string {
+	set := c10Leads
+	if digits {
+		set = c10LeadDigits
+	}
+	switch cl {
+	case clIdent:
+		if digits {
+			return h.Pick(rng, []string{"0", "9", "00", "1e9"})
+		}
+		return h.Pick(rng, []string{"_", "A", "z", "__", "x0"})
+	case clTrIdent:
+		if digits {
+			return h.Pick(rng, []string{"0", "9", "0-", "1.", "3--"})
+		}
+		return h.Pick(rng, []string{"_", ".", "A", "z", "-", "--", ".-"})
+	case clHex:
+		return h.Pick(rng, []string{"0", "9", "27", "00", "a", "F"})
+	}
+	for try := 0; try < 8; try++ {
+		if s := c10Narrow(cl, h.Pick(rng, set)); s != "" {
+			return s
+		}
+	}
+	return ""
+}
 
 // hostile fragments: every byte (sequence) that has a meaning for the ClickHouse lexer, for LIKE, for the
 // query languages in front of it, or for the transports
@@ -97,7 +134,15 @@ func c10Mid(rng *h.Rng, cl c10Class) string {
 			b.WriteString(rng.Ident(4))
 		}
 	}
-	s := b.String()
+	s := c10Narrow(cl, b.String())
+	if s == "" {
+		s = "'"
+	}
+	return s
+}
+
+// c10Narrow: drop from s what the class cannot carry
+func c10Narrow(cl c10Class, s string) string {
 	drop := func(set string) {
 		s = strings.Map(func(r rune) rune {
 			if r < 0x80 && strings.IndexByte(set, byte(r)) >= 0 {
@@ -117,9 +162,6 @@ func c10Mid(rng *h.Rng, cl c10Class) string {
 		s = strings.ReplaceAll(s, "{", "")
 	case clNoColon:
 		drop("{:")
-	}
-	if s == "" {
-		s = "'"
 	}
 	return s
 }
@@ -545,6 +587,7 @@ func c10Judge(o *c10Obs, lx *c10Lexed) (string, map[string]any) {
 	if lv.Expect != nil {
 		want = lv.Expect(val)
 	}
+	want = c10ScopeStripped(lv, want)
 	rep := func(sqlText, toks string) map[string]any {
 		m := map[string]any{"stream": "taint", "endpoint": o.pos.Endpoint, "position": o.pos.Pos, "cfg": o.cfg,
 			"marker_hex": h.Hex([]byte(val)), "request": o.req.replay(), "sql": sqlText, "tokens": toks}
@@ -618,6 +661,42 @@ func c10Judge(o *c10Obs, lx *c10Lexed) (string, map[string]any) {
 	return "", nil
 }
 
+// c10ScopeStripped: TraceQL attribute names and tempo tag names lose their scope prefix by design (`span.`,
+// `resource.`, a leading `.`, applied one after the other: attr_condition.go getTerm, tempoService.GetValuesRequest);
+// a marker that begins with such a prefix is intended to arrive without it
+func c10ScopeStripped(lv c10Level, want []string) []string {
+	res := append([]string{}, want...)
+	if lv.Class == clNoBrace || lv.Class == clNoColon {
+		// profile type id (render-diff query, profile_typeID): blanks around the query and back-quotes at the ends
+		// of a part are trimmed (value-level, recorded in notes/C10.md); the structure is judged as everywhere
+		for _, w := range want {
+			t := strings.Trim(strings.TrimSpace(w), "`")
+			res = append(res, strings.TrimSpace(w), t, strings.TrimSpace(t))
+		}
+		return res
+	}
+	if lv.Class != clTrIdent && lv.Class != clNoSlash {
+		return want
+	}
+	for _, w := range want {
+		for i := 0; i < 3; i++ {
+			t := w
+			for _, p := range []string{"span.", "resource.", "."} {
+				if strings.HasPrefix(t, p) {
+					t = t[len(p):]
+					break
+				}
+			}
+			if t == w {
+				break
+			}
+			res = append(res, t)
+			w = t
+		}
+	}
+	return res
+}
+
 func c10Harmless(cl c10Class) string {
 	if cl == clHex {
 		return "abcd"
@@ -680,6 +759,9 @@ func c10Taint(r *h.Result, rng *h.Rng, perPos int, inventory []string) error {
 		rts[c] = c10Assemble(c)
 	}
 	positions := c10Positions()
+	if err := c10Grammar(r, positions); err != nil {
+		return err
+	}
 
 	// inventory: every Gen.Params entry must be exercised by a position
 	known := map[string]bool{}
@@ -732,9 +814,17 @@ func c10Taint(r *h.Result, rng *h.Rng, perPos int, inventory []string) error {
 				for li, lv := range p.Levels {
 					n++
 					head, tail := c10Heads(lv.Class, n)
-					m := c10Marker{head, c10Mid(prng, lv.Class), tail}
+					m := c10Marker{Head: head, Mid: c10Mid(prng, lv.Class), Tail: tail}
 					if k == 0 && li == 0 && lv.Class != clHex && lv.Class != clIdent && lv.Class != clTrIdent {
 						m.Mid = "'\\" // always: the two bytes the escape is about
+					}
+					// the second marker of every position begins like a number, the third with some other hostile
+					// fragment, later ones with either in half of the cases
+					switch {
+					case k == 1:
+						m.Pre = c10Lead(prng, lv.Class, true)
+					case k == 2 || k > 2 && prng.Chance(50):
+						m.Pre = c10Lead(prng, lv.Class, prng.Chance(25))
 					}
 					req := p.Mk(m.Val())
 					out := rt.do(req)
@@ -744,7 +834,14 @@ func c10Taint(r *h.Result, rng *h.Rng, perPos int, inventory []string) error {
 							fmt.Fprintf(c10Stderr, "   SQL: %s\n", s)
 						}
 					}
-					r.Case(fmt.Sprintf("taint:%s/%s:%s:%d:%s", p.Endpoint, p.Pos, cfg, li, h.Hex([]byte(m.Mid))), true)
+					r.Case(fmt.Sprintf("taint:%s/%s:%s:%d:%s:%s", p.Endpoint, p.Pos, cfg, li, h.Hex([]byte(m.Pre)), h.Hex([]byte(m.Mid))), true)
+					if m.Pre != "" {
+						if m.Pre[0] >= '0' && m.Pre[0] <= '9' {
+							r.Count("taint:leading-digit")
+						} else {
+							r.Count("taint:leading-fragment")
+						}
+					}
 					if out.Note == "hang" {
 						r.Violate(p.key()+"/hang", "the request did not return within 8 s", map[string]any{"stream": "taint", "request": req.replay()})
 						break
